@@ -40,7 +40,7 @@ use once_cell::sync::Lazy;
 use std::alloc::{Layout, alloc, dealloc};
 use std::cell::RefCell;
 use std::ptr::NonNull;
-use std::sync::atomic::{AtomicPtr, AtomicU32, AtomicU64, Ordering};
+use std::sync::atomic::{AtomicU32, AtomicU64, Ordering};
 use std::sync::{Arc, Weak};
 use std::time::{Instant, SystemTime, UNIX_EPOCH};
 
@@ -669,77 +669,36 @@ unsafe impl Send for SecureChunk {}
 // the pointer requires external synchronization (which SecurePooledPtr provides).
 unsafe impl Sync for SecureChunk {}
 
-/// Lock-free stack for high-performance chunk storage (Treiber stack)
+/// Shared stack of free chunks.
+///
+/// This used to be a Treiber stack on raw `Box` nodes. Its `pop` read `(*head).next`
+/// after another thread could already have popped and freed `head` (use-after-free),
+/// and the bare pointer compare-exchange was ABA-prone. Chunks only reach this stack
+/// when a thread-local cache overflows or runs dry, so a plain mutex-protected `Vec`
+/// is used instead: it is correct, and off the allocation fast path.
 struct LockFreeStack<T> {
-    head: AtomicPtr<Node<T>>,
-}
-
-struct Node<T> {
-    data: T,
-    next: *mut Node<T>,
+    items: parking_lot::Mutex<Vec<T>>,
 }
 
 impl<T> LockFreeStack<T> {
     fn new() -> Self {
         Self {
-            head: AtomicPtr::new(std::ptr::null_mut()),
+            items: parking_lot::Mutex::new(Vec::new()),
         }
     }
 
     fn push(&self, item: T) {
-        let new_node = Box::into_raw(Box::new(Node {
-            data: item,
-            next: std::ptr::null_mut(),
-        }));
-
-        loop {
-            let head = self.head.load(Ordering::Acquire);
-            unsafe {
-                (*new_node).next = head;
-            }
-
-            if self
-                .head
-                .compare_exchange_weak(head, new_node, Ordering::Release, Ordering::Relaxed)
-                .is_ok()
-            {
-                break;
-            }
-        }
+        self.items.lock().push(item);
     }
 
     fn pop(&self) -> Option<T> {
-        loop {
-            let head = self.head.load(Ordering::Acquire);
-            if head.is_null() {
-                return None;
-            }
-
-            let next = unsafe { (*head).next };
-            if self
-                .head
-                .compare_exchange_weak(head, next, Ordering::Release, Ordering::Relaxed)
-                .is_ok()
-            {
-                let data = unsafe { Box::from_raw(head).data };
-                return Some(data);
-            }
-        }
+        self.items.lock().pop()
     }
 
     fn is_empty(&self) -> bool {
-        self.head.load(Ordering::Acquire).is_null()
+        self.items.lock().is_empty()
     }
 }
-
-impl<T> Drop for LockFreeStack<T> {
-    fn drop(&mut self) {
-        while self.pop().is_some() {}
-    }
-}
-
-unsafe impl<T: Send> Send for LockFreeStack<T> {}
-unsafe impl<T: Send> Sync for LockFreeStack<T> {}
 
 /// Thread-local cache for reduced contention
 #[derive(Default)]
